@@ -113,6 +113,17 @@ var c19binary string
 type c19e2e struct {
 	Name string `json:"name"`
 	Flag string `json:"flag"`
+	With string `json:"with,omitempty"` // a boolean option switched to the other value on both command lines
+}
+
+// c19with: the table entry with one more argument.
+func c19with(e cliEntry, arg string) cliEntry {
+	if arg == "" {
+		return e
+	}
+	e2 := e
+	e2.Args = append(append([]string{}, e.Args...), arg)
+	return e2
 }
 
 type c19case struct {
@@ -136,8 +147,16 @@ func c19resolve(args []string) (*cobra.Command, []*pflag.Flag) {
 			fl = append(fl, f)
 		}
 	}
-	c.LocalFlags().VisitAll(add)
-	c.InheritedFlags().VisitAll(add)
+	cliFlagSets(c) // finds out (once) whether cobra can assemble the flag sets of this command
+	if _, bad := cliFlagPanics[c.CommandPath()]; bad {
+		c.Flags().VisitAll(add)
+		for p := c; p != nil; p = p.Parent() {
+			p.PersistentFlags().VisitAll(add)
+		}
+	} else {
+		c.LocalFlags().VisitAll(add)
+		c.InheritedFlags().VisitAll(add)
+	}
 	sort.Slice(fl, func(i, j int) bool { return fl[i].Name < fl[j].Name })
 	return c, fl
 }
@@ -264,6 +283,20 @@ func init() {
 				})
 			}
 			c.Max("commands", int64(len(cmds)))
+			// the flag set of every command can be assembled: a persistent option registered by a parent must not collide with one of the command
+			if c.Shard == 0 {
+				cliResetFlags()
+				for _, cc := range cliAllCommands() {
+					path := cc.CommandPath()
+					c.Count("commands_flag_sets_assembled", 1)
+					c.Check(c19case{Kind: "flagset", Flag: &c19flag{Cmd: path}}, func() (string, string) {
+						if msg, bad := cliFlagPanics[path]; bad {
+							return "C19/registration-conflict/" + path, fmt.Sprintf("the options of `%s` cannot be combined with the persistent options registered by its parents: %s (every invocation of the command panics)", path, msg)
+						}
+						return "", ""
+					})
+				}
+			}
 			// (4) behavioural
 			covered := map[string]bool{}
 			for _, e := range cliTable() {
@@ -297,6 +330,31 @@ func init() {
 					c.Count("e2e_pairs", 1)
 					c.Check(c19case{Kind: "e2e", E2E: &c19e2e{Name: e.Name, Flag: f.Name}}, func() (string, string) { return c19e2eCheck(e, f) })
 				}
+				// second order: one boolean option of the command switched to its other value - the remaining omitted
+				// options still mean their documented defaults (an option must not change what leaving another one out means)
+				for _, b := range fl {
+					if b.Value.Type() != "bool" || b.Name == "help" || c19given(e.Args, b) || givenAddr[c19addr(b.Value)] {
+						continue
+					}
+					with := "--" + b.Name + "=" + map[string]string{"true": "false", "false": "true"}[b.DefValue]
+					e2 := c19with(e, with)
+					for _, f := range fl {
+						if c.TimeUp() {
+							return
+						}
+						if f == b || f.Name == "help" || c19given(e.Args, f) || f.DefValue == "[]" || givenAddr[c19addr(f.Value)] || c19addr(f.Value) == c19addr(b.Value) {
+							continue
+						}
+						if !c.Mine() {
+							continue
+						}
+						f := f
+						c.States++
+						c.Transitions += 2
+						c.Count("e2e_pairs_with_a_boolean_option_switched", 1)
+						c.Check(c19case{Kind: "e2e", E2E: &c19e2e{Name: e.Name, Flag: f.Name, With: with}}, func() (string, string) { return c19e2eCheck(e2, f) })
+					}
+				}
 			}
 			c.Max("commands_run_end_to_end", int64(len(covered)))
 		},
@@ -304,6 +362,14 @@ func init() {
 			defer cliCleanup()
 			var cs c19case
 			json.Unmarshal(raw, &cs)
+			if cs.Kind == "flagset" && cs.Flag != nil {
+				cliInit()
+				cliResetFlags()
+				if msg, bad := cliFlagPanics[cs.Flag.Cmd]; bad {
+					c.Violate("C19/registration-conflict/"+cs.Flag.Cmd, msg, cs)
+				}
+				return
+			}
 			if cs.Kind == "static" && cs.Flag != nil {
 				for _, f := range c19flags() {
 					if f.Cmd == cs.Flag.Cmd && f.Flag == cs.Flag.Flag {
@@ -321,6 +387,7 @@ func init() {
 						continue
 					}
 					_, fl := c19resolve(e.Args)
+					e = c19with(e, cs.E2E.With)
 					for _, f := range fl {
 						if f.Name == cs.E2E.Flag {
 							k, w := c19e2eCheck(e, f)
